@@ -11,6 +11,12 @@ let string_of_clause = function
   | ClOnTimeLost -> "on_time_lost" | ClEarlyFire -> "early_fire" | ClWatermarkOrigin -> "watermark_origin"
   | ClLateUpdateShape -> "late_update_shape" | ClTooLateCounted -> "too_late_counted" | ClFarFuture -> "far_future"
 
+let string_of_sclause = function
+  | SMembership -> "membership" | SUnknownRow -> "unknown_row" | STwice -> "twice" | SOrder -> "order"
+  | STooEarlyStart -> "too_early_start" | SRowMissing -> "row_missing" | SIntervalLost -> "interval_lost"
+  | SEarlyFire -> "early_fire" | SWatermarkOrigin -> "watermark_origin" | SLateUpdateShape -> "late_update_shape"
+  | SLateUpdateMissing -> "late_update_missing" | STooLateCounted -> "too_late_counted"
+
 (* split a token list at "#" separators *)
 let split_hash (toks : string list) : string list list =
   let rec go acc cur = function
@@ -74,3 +80,32 @@ let parse_trace (ts_of : (int, z) Hashtbl.t) (toks : string list) : ev list =
         EvBatch { b_start = zs s; b_end = zs e; b_rows = rows; b_late = false } :: go r'
     | t :: _ -> failwith ("bad trace token " ^ t) in
   go toks
+
+(* run a harness-level history on the tumbling / sliding model *)
+let run_hops (c : cfg) (hops : hop list) : ev list =
+  let rec go s = function
+    | [] -> []
+    | HOp o :: r -> let (s1, e) = step c s o in e @ go s1 r
+    | HDeliver inj :: r -> let (s1, e) = deliver c s inj in e @ go s1 r
+    | HDrain :: r ->
+        let rec drain s n acc =
+          if n = 0 then (s, acc) else
+          let (s1, e) = deliver c s [] in
+          if e = [EvD0] then (s1, acc @ e) else drain s1 (n - 1) (acc @ e) in
+        let (s1, e) = drain s 200 [] in e @ go s1 r in
+  go st0 hops
+
+
+let run_shops (c : scfg) (hops : hop list) : ev list =
+  let rec go s = function
+    | [] -> []
+    | HOp o :: r -> let (s1, e) = sstep c s o in e @ go s1 r
+    | HDeliver inj :: r -> let (s1, e) = sdeliver c s inj in e @ go s1 r
+    | HDrain :: r ->
+        let rec drain s n acc =
+          if n = 0 then (s, acc) else
+          let (s1, e) = sdeliver c s [] in
+          if e = [EvD0] then (s1, acc @ e) else drain s1 (n - 1) (acc @ e) in
+        let (s1, e) = drain s 200 [] in e @ go s1 r in
+  go sst0 hops
+
